@@ -36,7 +36,7 @@ def re_compile(run, args, kwargs, node):
             txt = s.as_string()
             # z3 escapes non-printable chars as \u{..}
             txt = re.sub(r"\\u\{([0-9a-fA-F]+)\}", lambda m: chr(int(m.group(1), 16)), txt)
-            return Conc(("regex", txt, flags, getattr(pat, "is_bytes", False)))
+            return Conc(("regex", txt, flags, getattr(pat, "pykind", None) == "bytes"))
         return Conc(("regex_sym", pat, flags))
     raise EngineError("re.compile of a non-string")
 
